@@ -58,6 +58,11 @@ def eval_args(st, n):
             sv = E.ev(st, a.value)
             items = E.tuple_items(st, sv)
             if items is None:
+                if (sv.t.kind == 'union' and not sv.t.args) or sv.t.kind == 'ref':
+                    # *value of an opaque (Any) value or of an object (iterated by Python): an unknown number of opaque positional arguments; accepted
+                    # only where they all land in the callee's *varargs parameter (bind_args)
+                    args.append(Val(T.Ty('starred_opaque'), None))
+                    continue
                 raise Undecided('*args of symbolic length at line %s' % n.lineno)
             args.extend(items)
         else:
@@ -231,6 +236,12 @@ def bind_args(st, c, args, kwargs, closure_env=None, npos=None):
             env[p] = Val(c.params[p], None)
     if len(args) > len(pos) and not c.vararg:
         raise Undecided('too many arguments for %s' % c.key)
+    if any(a.t.kind == 'starred_opaque' for a in args):
+        # parameters declared before *varargs are positional, those after it keyword-only
+        nbefore = names.index(c.vararg) if c.vararg in names else len(pos)
+        if any(a.t.kind == 'starred_opaque' for a in args[:nbefore]) or not c.vararg:
+            raise Undecided('*args of symbolic length bound to named parameters of %s' % c.key)
+        args = list(args[:nbefore])          # the rest is swallowed by *varargs (opaque to the contract)
     for p, a in zip(pos, args):
         env[p] = a
     if c.vararg:
